@@ -694,17 +694,32 @@ def check(tier: str, seed: int, t0: float, build: core.BuildStatus) -> int:
                 s2 = rng.choice(pair_pool) if rng.random() < 0.75 else gen_string(rng)
                 if not (encodable(s1) and encodable(s2)):
                     continue
-                src = f'ds.Select(lambda e: e.{c}("{bank0}").Select(lambda j: fill_pair(j, {s1!r}, {s2!r})))'
+                # half of the time the function is called TWICE in the query, with other constants the second time: each call
+                # site carries its own constants
+                s3 = s4 = None
+                if rng.random() < 0.5:
+                    s3 = rng.choice(pair_pool) if rng.random() < 0.6 else gen_string(rng)
+                    s4 = rng.choice(["second", "x2", ""])
+                    if not encodable(s3):
+                        s3 = "other"
+                    src = f'ds.Select(lambda e: e.{c}("{bank0}").Select(lambda j: fill_pair(j, {s1!r}, {s2!r}) + fill_pair(j, {s3!r}, {s4!r})))'
+                else:
+                    src = f'ds.Select(lambda e: e.{c}("{bank0}").Select(lambda j: fill_pair(j, {s1!r}, {s2!r})))'
                 r = impl.translate(b, impl.query_ast(src, pair_md))
                 impl.reset_globals()
                 oc.evaluations += 1
                 pair_n += 1
-                rp = {"kind": "pair", "backend": b, "query": src, "constants": [s1, s2]}
+                rp = {"kind": "pair", "backend": b, "query": src, "constants": [s1, s2] + ([s3, s4] if s3 is not None else [])}
                 if r[0] != "ok":
                     oc.violations.append(core.Violation(key="c18:str:pair-refused", what=f"{b}: {src} refused: {r[1:]}", replay=rp))
                     continue
                 text = r[1]["files"][MAIN[b]]["text"]
                 bad = pair_line_error(model, text, s1, s2)
+                if bad is None and s3 is not None:
+                    second = text.find("double result = g_pair_value(*", text.find("g_pair_value(*") + 1)
+                    bad = "the second call of the function is not in the generated file" if second < 0 else pair_line_error(model, text[second:], s3, s4)
+                    if bad:
+                        bad = "second call site: " + bad
                 if bad:
                     oc.violations.append(core.Violation(key="c18:str:pair", what=f"{b}: the constants {s1!r}, {s2!r} as arguments of one injected call: {bad}", replay=rp))
                 else:
@@ -769,7 +784,11 @@ def replay(path: str, build: core.BuildStatus) -> int:
             text = r[1]["files"][MAIN[data["backend"]]]["text"]
             print("emitted:", [ln.strip() for ln in text.splitlines() if "g_pair_value" in ln])
             model = core.Model()
-            bad = pair_line_error(model, text, data["constants"][0], data["constants"][1])
+            cs = data["constants"]
+            bad = pair_line_error(model, text, cs[0], cs[1])
+            if bad is None and len(cs) == 4:
+                second = text.find("double result = g_pair_value(*", text.find("g_pair_value(*") + 1)
+                bad = "the second call of the function is not in the generated file" if second < 0 else pair_line_error(model, text[second:], cs[2], cs[3])
             model.close()
         else:
             text = "".join(f["text"] for f in r[1]["files"].values())
